@@ -1411,6 +1411,12 @@ NATIVE_FORWARD_EXCEPTIONS = {
 }
 
 
+# entry points that have no separate body (confirmed by reading; the work-stealing customisation API)
+NATIVE_IN_PLACE = ('myth_wsapi_get_hint_ptr', 'myth_wsapi_get_hint_size', 'myth_wsapi_rand', 'myth_wsapi_randarr', 'myth_wsapi_set_hint',
+                   'myth_wsapi_runqueue_pass', 'myth_wsapi_runqueue_peek', 'myth_wsapi_runqueue_pop', 'myth_wsapi_runqueue_push',
+                   'myth_wsapi_runqueue_take', 'myth_wsapi_set_stealfunc', 'myth_exit_workers_ex', 'myth_ext_exit_workers_ex')
+
+
 def native_forwarding(ctx, rule, fl, select, floor=1):
     """public entry points of the native API (myth_if_native.c): `myth_X(args)` reaches exactly the implementation
     `myth_X_body`, with its parameters forwarded position by position and the body's result returned.  `select(name)` picks the
@@ -1427,7 +1433,7 @@ def native_forwarding(ctx, rule, fl, select, floor=1):
         want = NATIVE_FORWARD_EXCEPTIONS.get(n, n + '_body')
         f = ctx.need_fn(v, n)
         bc = [c for c in f.calls() if c.callee and c.callee.endswith('_body')]
-        if want not in raw.functions and not bc:
+        if n in NATIVE_IN_PLACE and not bc:
             continue        # implemented in place (no separate body): decided by the rules that analyse it
         # (a body that is defined but no longer emitted because this entry point stopped calling it still counts: the entry
         # point then reaches a sibling's body, which the first obligation reports)
